@@ -218,7 +218,7 @@ func genC05(t *rapid.T) C05Case {
 	c.Call = rapid.SampledFrom([]string{"", "", "WriteHeaderAndEntity", "WriteServiceError"}).Draw(t, "call")
 	splitDraw := rapid.IntRange(0, 5).Draw(t, "split")
 	nr := rapid.SampledFrom([]int{0, 1, 1, 2, 2, 3, 3, 4, 5, 6, 9, 13, 14, 16, 20, 30}).Draw(t, "nranges")
-	qs := []string{"", "", "1", "0.9", "0.8", "0.8", "0.5", "0.1", "0.001", "1.0", "0.50"}
+	qs := []string{"", "", "1", "0.9", "0.8", "0.8", "0.5", "0.1", "0.001", "1.0", "0.50", "0", "0.0"}
 	for i := 0; i < nr; i++ {
 		var r AccRange
 		switch x := rapid.IntRange(0, 99).Draw(t, "rangekind"); {
@@ -352,6 +352,19 @@ func checkC05(c C05Case) (vs []*Violation) {
 		st.Case(c, false, append(labels, "service_error_as_xml_skipped")...)
 		return nil
 	}
+	zeroOnly := len(c.Accept) > 0
+	for _, r := range c.Accept {
+		sel := r.Media == "*/*"
+		for _, p := range c.Produces {
+			sel = sel || (p == r.Media && isReg[p])
+		}
+		if sel && r.qval() > 0 {
+			zeroOnly = false
+		}
+	}
+	if zeroOnly {
+		labels = append(labels, "every_selecting_range_has_q_0")
+	}
 	hdrs := []string{renderAccept(c.Accept, true)}
 	if stripped := renderAccept(c.Accept, false); stripped != hdrs[0] {
 		hdrs = append(hdrs, stripped)
@@ -388,6 +401,12 @@ func checkC05(c C05Case) (vs []*Violation) {
 				if p == got && isReg[p] {
 					inProduces = true
 				}
+			}
+			if got != want && zeroOnly && inProduces {
+				// every range that selects a produced type carries q=0: the smallest weight there
+				// is, and "not acceptable" to RFC 7231. Which produced type answers is left open;
+				// that it is a produced type with a writer (and not 406) is not.
+				continue
 			}
 			if got != want {
 				sig := ""
